@@ -14,17 +14,44 @@ import scalar_check as S
 
 
 class Item:
-    def __init__(self, iid, decls, text=None, opts=None, note=None, entities=None):
+    def __init__(self, iid, decls, text=None, opts=None, note=None, entities=None, c20=False):
         self.id = str(iid)
         self.decls = decls
         self.text = text if text is not None else fa.program_text(decls)
         self.opts = opts or {}
         self.note = note
         self.entities = entities
+        self.c20 = c20
         self.status = None  # 'pass' | 'known:<id>' | 'violation' | 'skipped:<why>'
         self.detail = {}
         self.bpj = None
         self.harvest = None
+
+
+def s19_region(item):
+    """known finding S19: with optimisation, CSE makes the two operands of a wire merge the same
+    node (`E + v` where v was declared as E); the merged producer is then counted twice"""
+    if not item.opts.get("optimize", True):
+        return False
+    decls = item.decls
+
+    def res(e):
+        while e[0] == "var" and decls[e[1]][0] == "sig":
+            e = decls[e[1]][2]
+        return e
+
+    def walk(e):
+        if not isinstance(e, tuple):
+            return False
+        if e[0] == "bin" and e[1] == "+":
+            a, b = e[2], e[3]
+            if (a[0] == "var") != (b[0] == "var") and repr(res(a)) == repr(res(b)):
+                return True
+            if a[0] != "var" and b[0] != "var" and repr(a) == repr(b):
+                return True
+        return any(walk(x) for x in e[1:])
+
+    return any(walk(d[2]) for d in decls if d[0] != "in")
 
 
 def _classify_wiring(item):
@@ -50,7 +77,7 @@ def check_items(prop, items, seed=0, do_search=True, per=6):
         it.bpj = json.loads(r[1])
         it.harvest = r[2] if len(r) > 2 else None
         try:
-            defs, expr, meta = S.case_for(it.id, it.decls, it.bpj, entities=it.entities)
+            defs, expr, meta = S.case_for(it.id, it.decls, it.bpj, entities=it.entities, c20=it.c20)
         except bpexport.Unsupported as e:
             it.status = "violation"
             it.detail = {"kind": "unsupported-blueprint", "message": str(e)}
@@ -59,9 +86,15 @@ def check_items(prop, items, seed=0, do_search=True, per=6):
         if not meta["outputs"]:
             it.status = "skipped:no-outputs"
             continue
-        cases.append((it.id, defs, expr))
+        if meta.get("c20_expr"):
+            cases.append((it.id, defs, [("", expr), ("A", meta["c20_expr"])]))
+        else:
+            cases.append((it.id, defs, expr))
         defs_by[it.id] = defs
     results, logs, cmd = H.shard_cases(prop, cases, S.EXTRA, per=per)
+    for it in items:
+        if getattr(it, "meta", None) and it.meta.get("c20_expr"):
+            it.c20_ok = bool(results.get(it.id + "A"))
     by_id = {it.id: it for it in items}
     failing = []
     for cid, _, _ in cases:
@@ -77,7 +110,7 @@ def check_items(prop, items, seed=0, do_search=True, per=6):
             it.ideal = None
             continue
         try:
-            defs, expr, meta = S.case_for(it.id, it.decls, it.bpj, ideal=it.harvest, entities=it.entities)
+            defs, expr, meta = S.case_for(it.id, it.decls, it.bpj, ideal=it.harvest, entities=it.entities, c20=it.c20)
             icases.append((it.id, defs, expr))
         except bpexport.Unsupported:
             it.ideal = None
@@ -90,6 +123,8 @@ def check_items(prop, items, seed=0, do_search=True, per=6):
         s17 = bool(it.harvest and "edges" in it.harvest and bpexport.s17_region(it.bpj, it.harvest))
         if ideal_ok is None and s17:
             it.status = "known:S17"
+        elif ideal_ok is False and s19_region(it):
+            it.status = "known:S19"
         elif ideal_ok and _classify_wiring(it):
             it.status = "known:S12"
         elif ideal_ok is False and s16:
@@ -136,3 +171,82 @@ def concrete_mismatch(item, env_values, prop="W"):
 
     pairs = re.findall(r"\((-?\d+),\s*(-?\d+)\)", (outs[0] or "").replace("%Z", "")) if outs and outs[0] else []
     return [(o[0], int(a), int(b)) for o, (a, b) in zip(meta["outputs"], pairs)]
+
+
+# ------------------------------------------------------------------ shrinking
+def _refs(e, acc):
+    if isinstance(e, tuple):
+        if e[0] == "var":
+            acc.add(e[1])
+        for x in e[1:]:
+            _refs(x, acc)
+
+
+def _reindex(e, m):
+    if not isinstance(e, tuple):
+        return e
+    if e[0] == "var":
+        return ("var", m[e[1]])
+    return tuple(_reindex(x, m) for x in e)
+
+
+def _drop_decl(decls, i):
+    used = set()
+    for d in decls:
+        if d[0] != "in":
+            _refs(d[2], used)
+    if i in used:
+        return None
+    m = {}
+    out = []
+    for j, d in enumerate(decls):
+        if j == i:
+            continue
+        m[j] = len(out)
+        out.append(d if d[0] == "in" else (d[0], d[1], _reindex(d[2], m)))
+    return out
+
+
+def _subexpr_variants(e):
+    """smaller expressions obtained by replacing one node by one of its children"""
+    if not isinstance(e, tuple) or e[0] in ("int", "var"):
+        return
+    kids = [x for x in e[1:] if isinstance(x, tuple)]
+    for k in kids:
+        yield k
+    for idx, x in enumerate(e):
+        if isinstance(x, tuple):
+            for v in _subexpr_variants(x):
+                yield e[:idx] + (v,) + e[idx + 1:]
+
+
+def shrink(prop, item, still_fails, rounds=12, width=24):
+    """greedy delta debugging over declarations and sub-expressions.  still_fails(list of Item) must
+    run the check and return the subset that still fails in the same way"""
+    import gen_scalar
+
+    cur = item.decls
+    for _ in range(rounds):
+        cands = []
+        for i in reversed(range(len(cur))):
+            c = _drop_decl(cur, i)
+            if c:
+                cands.append(c)
+        for i, d in enumerate(cur):
+            if d[0] == "in":
+                continue
+            for v in _subexpr_variants(d[2]):
+                c = list(cur)
+                c[i] = (d[0], d[1], v)
+                if gen_scalar.program_safe(c) and gen_scalar.s14_free(c):
+                    cands.append(c)
+        cands = [c for c in cands if any(d[0] == "sig" for d in c)][:width]
+        if not cands:
+            break
+        its = [Item(f"s{k}", c, opts=dict(item.opts), c20=item.c20) for k, c in enumerate(cands)]
+        bad = still_fails(its)
+        if not bad:
+            break
+        bad.sort(key=lambda it: sum(fa.size(d[2]) for d in it.decls if d[0] != "in") + 3 * len(it.decls))
+        cur = bad[0].decls
+    return cur
